@@ -249,16 +249,26 @@ def _run_real(op):
     if name == 'lex':
         pat = _lexer.TRIPLE_RE if op.get('mode') == 'triples' else _lexer.PENMAN_RE
         return _toks(_lexer.lex(_input(op), pattern=pat))
+    via = op.get('via') if op.get('lines') is None else None     # public wrappers take a str
     if name == 'parse':
+        if via == 'public':
+            return res(lambda: penman.parse(op['s']), j_tree)
+        if via == 'codec':
+            return res(lambda: penman.PENMANCodec().parse(op['s']), j_tree)
         return res(lambda: _parse._parse(_lexer.lex(_input(op), pattern=_lexer.PENMAN_RE)), j_tree)
     if name == 'iterparse':
         trees, err = [], None
         try:
-            for t in penman.iterparse(_input(op)):
+            it = penman.PENMANCodec().iterparse(_input(op)) if op.get('via') == 'codec' else penman.iterparse(_input(op))
+            for t in it:
                 trees.append(j_tree(t))
         except Exception as e:  # noqa: BLE001
             err = j_err(e)
         return {'trees': trees, 'err': err}
+    if name == 'parse_triples' and via == 'public':
+        return res(lambda: penman.parse_triples(op['s']), lambda ts: [j_triple(t) for t in ts])
+    if name == 'parse_triples' and via == 'codec':
+        return res(lambda: penman.PENMANCodec().parse_triples(op['s']), lambda ts: [j_triple(t) for t in ts])
     if name == 'parse_triples':
         return res(lambda: _parse._parse_triples(_lexer.lex(_input(op), pattern=_lexer.TRIPLE_RE)),
                    lambda ts: [j_triple(t) for t in ts])
@@ -271,12 +281,20 @@ def _run_real(op):
             return penman.PENMANCodec().format_triples([py_triple(t) for t in op['triples']], **fmt_kw(op, ('indent',)))
         return penman.format_triples([py_triple(t) for t in op['triples']], **fmt_kw(op, ('indent',)))
     if name == 'interpret':
+        if op.get('via') == 'public':
+            return res(lambda: penman.interpret(py_tree(op['tree']), model=model_arg(op)), j_graph)
         return res(lambda: layout.interpret(py_tree(op['tree']), model_arg(op)), j_graph)
     if name == 'decode':
         m = py_model(op.get('model'))
+        if op.get('via') == 'penman.decode' and op.get('lines') is None:
+            return res(lambda: penman.decode(op['s'], model=m), j_graph)
+        if op.get('via') == 'codec.decode' and op.get('lines') is None:
+            return res(lambda: penman.PENMANCodec(model=m).decode(op['s']), j_graph)
         return res(lambda: layout.interpret(_parse._parse(_lexer.lex(_input(op), pattern=_lexer.PENMAN_RE)), m), j_graph)
     if name == 'configure':
         g = py_graph(op['graph'])
+        if op.get('via') == 'public':
+            return res(lambda: penman.configure(g, top=op.get('top'), model=model_arg(op)), j_tree)
         return res(lambda: layout.configure(g, top=op.get('top'), model=model_arg(op)), j_tree)
     if name == 'encode':
         g = py_graph(op['graph'])
